@@ -148,6 +148,30 @@ func Run(seed int64, tier, out string) {
 				}
 			}
 		}
+		// failing ID computations in the backend (parameters it cannot encode) leave no trace
+		for k, poison := range []func(r *raw){
+			func(r *raw) { b := make([]byte, 200); b[0] = 1; r.nonce = new(big.Int).SetBytes(b) },
+			func(r *raw) { r.nonce = big.NewInt(-5) },
+			func(r *raw) { r.nonce = nil },
+		} {
+			r := base
+			poison(&r)
+			func() {
+				defer func() { _ = recover() }()
+				_, _ = channel.CalcID(&channel.Params{ChallengeDuration: r.cd, Parts: r.parts, App: r.app, Nonce: r.nonce, LedgerChannel: r.ledger, VirtualChannel: r.virtual})
+			}()
+			cid, cerr := channel.CalcID(p)
+			func() {
+				defer func() { _ = recover() }()
+				_ = channel.NewParamsUnsafe(r.cd, r.parts, r.app, r.nonce, r.ledger, r.virtual, r.aux)
+			}()
+			q, _, _ := newParams(base)
+			good := cerr == nil && cid == id && q != nil && q.ID() == id && p.Clone().ID() == id
+			res.Count("after-failed-calcid", fmt.Sprintf("%d/%v", k, good), fmt.Sprintf("after-failed-calcid/%d/%v", k, good), false)
+			if !good {
+				fail("sim/channel.CalcID", "recompute-after-failure", "the ID of equal parameters changed after an unrelated failing ID computation", idx, base.term())
+			}
+		}
 		// every single-field change yields a different ID
 		variants := []struct {
 			name string
@@ -213,6 +237,10 @@ func Run(seed int64, tier, out string) {
 			r := base
 			v.f(&r)
 			_, ok, panicked := newParams(r)
+			// the ID is a function of the parameters alone: no refused call before it may change it
+			if q, _, _ := newParams(base); q == nil || q.ID() != id {
+				fail("channel.NewParams", "recompute-after-refusal", "the ID of equal parameters changed after an unrelated refused NewParams ("+v.name+")", idx, base.term())
+			}
 			bidx := add(hx.App("CNew", r.term(), hx.Bool(ok)), "bad/"+v.name)
 			res.Count("bad/"+v.name, fmt.Sprintf("ok=%v", ok), fmt.Sprintf("bad/%s/%v", v.name, ok), false)
 			wantOK := v.name == "nonce-32-bytes"
@@ -222,6 +250,6 @@ func Run(seed int64, tier, out string) {
 		}
 	}
 	flush()
-	res.Rule = "random parameter sets (2-5 participants, three apps, nonces up to 32 bytes), every single-field variant (ID must differ), every constraint violation (must be refused); the ID pre-image bytes (sha256 checked against Params.ID() in Go) compared with the model's id_preimage; distinct by (class, verdict)"
+	res.Rule = "after every refused or failing ID computation (NewParams, CalcID and NewParamsUnsafe on parameters the backend cannot encode) the ID of the base parameters is recomputed and must be unchanged; random parameter sets (2-5 participants, three apps, nonces up to 32 bytes), every single-field variant (ID must differ), every constraint violation (must be refused); the ID pre-image bytes (sha256 checked against Params.ID() in Go) compared with the model's id_preimage; distinct by (class, verdict)"
 	res.Write(out)
 }
